@@ -172,10 +172,14 @@ where
     /// Initialize the radio for LoRa physical layer communications
     pub async fn init(&mut self) -> Result<(), RadioError> {
         self.cold_start = true;
+        let prior_mode = self.radio_mode;
         self.radio_kind.reset(&mut self.delay).await?;
-        self.radio_kind.ensure_ready(self.radio_mode).await?;
-        self.radio_kind.set_standby().await?;
+        // The reset leaves the chip in standby without any of its configuration. Forget whatever
+        // operation was prepared before, so that a failure of the remaining steps cannot leave
+        // e.g. a prepared transmission behind that tx() would start on the unconfigured chip.
         self.radio_mode = RadioMode::Standby;
+        self.radio_kind.ensure_ready(prior_mode).await?;
+        self.radio_kind.set_standby().await?;
         self.do_cold_start().await
     }
 
